@@ -438,16 +438,40 @@ class Seams:
         _ORACLE[0] = HashOracle(hash_spec or {})
 
 
-class Capture:
-    """Captures sys.stdout / sys.stderr for one invocation."""
+class _Tap:
+    """ONE replacement of sys.stdout / sys.stderr for the whole life of a
+    simulated process, sliced per invocation.  It is installed once and never
+    re-installed: if the program re-binds sys.stdout and forgets to put it
+    back, later reports really are missing from stdout, as they would be in a
+    user's interpreter."""
 
-    def __enter__(self):
+    def __init__(self):
         self.out = io.StringIO()
         self.err = io.StringIO()
-        self._o, self._e = sys.stdout, sys.stderr
-        sys.stdout, sys.stderr = self.out, self.err
+        self.installed = False
+
+    def install(self):
+        if not self.installed:
+            sys.stdout, sys.stderr = self.out, self.err
+            self.installed = True
+
+
+_TAP = _Tap()
+
+
+class Capture:
+    """The slice of the process-wide tap that one invocation produced."""
+
+    def __enter__(self):
+        _TAP.install()
+        self._o = len(_TAP.out.getvalue())
+        self._e = len(_TAP.err.getvalue())
+        self.out = self.err = None
         return self
 
     def __exit__(self, *exc):
-        sys.stdout, sys.stderr = self._o, self._e
+        self.out = io.StringIO(_TAP.out.getvalue()[self._o:])
+        self.err = io.StringIO(_TAP.err.getvalue()[self._e:])
+        if sys.stdout is not _TAP.out or sys.stderr is not _TAP.err:
+            fired('program_rebound_std_stream')
         return False
